@@ -103,10 +103,7 @@ func worker(prop, tier string, seed uint64, start, stride, count int, deadline i
 			res = signersim.Explore(tier, seed, idx)
 		default:
 			tr := chain.NewExploreTrace(prop, tier, seed, idx)
-			res = chain.RunTrace(tr, true, chain.WorldDir(idx), chain.RunOpts{MaxWall: 120 * time.Second})
-			if len(res.Violations) == 0 && k%10 != 0 {
-				res.Trace = nil
-			}
+			res = chain.RunTrace(tr, true, chain.WorldDir(idx), chain.RunOpts{MaxWall: 120 * time.Second, KeepTrace: k%10 == 0})
 		}
 		_ = enc.Encode(res)
 	}
@@ -134,6 +131,25 @@ func execFile(path string, replay bool, keepLog bool) int {
 	res.Trace = nil
 	b, _ := json.Marshal(res)
 	fmt.Println(string(b))
+	if replay && tr.Expect == "replica.cross-process" {
+		// a dependence on something node-local cannot be pinned by a seed: re-execute in several processes
+		// with different environments and report how often the event logs differ
+		diff := 0
+		const n = 16
+		for i := 0; i < n; i++ {
+			alt := execInChildEnv(tr, fmt.Sprintf("GOMAXPROCS=%d", 1+i%8), "TZ=Pacific/Kiritimati", "HOME=/tmp/verif-althome")
+			if alt != nil && alt.LogHash != res.LogHash {
+				diff++
+			}
+		}
+		fmt.Printf("cross-process: %d of %d re-executions produced a different event log\n", diff, n)
+		if diff > 0 {
+			fmt.Println("REPRODUCED check=replica.cross-process")
+			return 1
+		}
+		fmt.Println("NOT-REPRODUCED")
+		return 0
+	}
 	if replay {
 		for _, v := range res.Violations {
 			if tr.Expect == "" || v.Check == tr.Expect {
